@@ -33,7 +33,7 @@ DFFS = ['$_DFF_P_', '$_DFFE_PN_', '$_DFFE_PP_', '$_DFF_PP0_', '$_DFF_PP1_', '$_D
 
 def bounds(tier):
     return {'covers': 'every cover over 1-2 inputs (all subsets of the 3^n cubes, special-cased patterns in both row orders); seeded covers '
-                      'over 3-4 inputs: %d' % (150 if tier == 'quick' else 1200),
+                      'over 3-4 inputs: %d' % (150 if tier == 'quick' else 6000),
             'flops': 'all 32 listed cell types + .latch with every init code', 'hierarchy': 'two-level .subckt, a model instantiated twice',
             'vectors': 'bit-indexed ports up to 12 bits, merge_io_vectors in {True, False}', 'bench': 'gate arity 1..4', 'K': 4}
 
@@ -60,7 +60,7 @@ def cases(tier, seed):
                 if 2 <= k <= 2:
                     out.append({'k': 'blif', 'text': cover_text(nin, rows[::-1]), 'K': 1, 'tag': 'cover%d' % nin})
     out.append({'k': 'blif', 'text': '.model top\n.inputs x\n.outputs o p q\n.names o\n1\n.names p\n.names x q\n1 1\n.end\n', 'K': 1, 'tag': 'const'})
-    for _ in range(150 if tier == 'quick' else 1200):
+    for _ in range(150 if tier == 'quick' else 6000):
         nin = rng.choice([3, 3, 4])
         rows = []
         for _r in range(rng.randint(1, 5)):
